@@ -105,11 +105,12 @@ theorem kwargs_support_not_transparent_varkw :
   · simp [applyFn, bindRef, kwFilter, extraKw, starEntries, recBody, raisesOf, List.findSome?]
 
 /-- **try_value returns its fallback exactly when f raises**, and f's result otherwise -/
-theorem try_fallback_iff (s : Sig) (body : PDict → Res Val) (p : PDict) (rest : List (Cls × PDict)) (c : Call) :
+theorem try_fallback_iff (s : Sig) (body : PDict → Res Val) (p : PDict) (rest : List (Cls × PDict)) (c : Call)
+    (hp : p.lookup "return_value" ≠ some (.cell (.bool false))) :
     (∀ v, evalChain s body rest c = .ok v → evalChain s body ((.tryValue, p) :: rest) c = .ok v) ∧
     (∀ e, evalChain s body rest c = .error e →
       evalChain s body ((.tryValue, p) :: rest) c = .ok ((p.lookup "value").getD (.cell .none))) := by
-  constructor <;> intro x hx <;> simp [evalChain, hx]
+  constructor <;> intro x hx <;> simp [evalChain, hx, hp]
 
 /-- `try_back` returns the first argument exactly when f raises -/
 theorem try_back_fallback_iff (s : Sig) (body : PDict → Res Val) (p : PDict) (rest : List (Cls × PDict))
